@@ -14,12 +14,80 @@ def harness_names(modfile):
     return names
 
 
-def inject(scratch_repo, modules, known_ids):
+def link_intree_macros(scratch_repo):
+    """a2lfile's lock file resolves a2lmacros to the registry release; properties about the in-tree generator (C19)
+    need the scratch copy to link /repo/a2lmacros instead (path dependency; cargo re-resolves offline)."""
+    p = os.path.join(scratch_repo, "a2lfile", "Cargo.toml")
+    s = open(p).read()
+    s2 = re.sub(r'(\[dependencies\.a2lmacros\]\n)', r'\1path = "../a2lmacros"\n', s, count=1)
+    if s2 == s:
+        s2 = re.sub(r'(?m)^a2lmacros\s*=\s*"[^"]*"\s*$', 'a2lmacros = { path = "../a2lmacros" }', s, count=1)
+    if s2 == s:
+        raise RuntimeError("could not redirect the a2lmacros dependency to the in-tree crate")
+    open(p, "w").write(s2)
+    return ["a2lfile/Cargo.toml: a2lmacros -> path ../a2lmacros (in-tree generator instead of the registry release)"]
+
+
+EXPAND_RE = re.compile(r"//@EXPAND_A2ML_BEGIN\n(.*?)//@EXPAND_A2ML_END\n", re.S)
+
+
+def expand_a2ml_specs(scratch_repo, body):
+    """Replace every //@EXPAND_A2ML_BEGIN ... //@EXPAND_A2ML_END region by the code the in-tree generator
+    (a2lmacros::a2mlspec::a2ml_specification, the function behind the a2ml_specification! proc macro) produces for it on
+    the current tree.  The generator is run as a test of the scratch copy of a2lmacros (proc_macro2 works outside the
+    compiler), its token stream is pretty-printed with rustfmt so that every generated impl has its own source span
+    (inside a macro invocation all impls share one span, which the MIR encoder cannot tell apart)."""
+    specs = EXPAND_RE.findall(body)
+    if not specs:
+        return body
+    lib = os.path.join(scratch_repo, "a2lmacros", "src", "lib.rs")
+    txt = open(lib).read()
+    if "mod verif_expand" not in txt:
+        with open(lib, "a") as f:
+            f.write('''
+#[cfg(test)]
+mod verif_expand {
+    #[test]
+    fn vrt_expand() {
+        let n: usize = std::env::var("VRT_NSPEC").unwrap().parse().unwrap();
+        for i in 0..n {
+            let spec = std::fs::read_to_string(format!("{}.{}", std::env::var("VRT_SPEC").unwrap(), i)).unwrap();
+            let ts: proc_macro2::TokenStream = spec.parse().unwrap();
+            let out = crate::a2mlspec::a2ml_specification(ts);
+            std::fs::write(format!("{}.{}", std::env::var("VRT_OUT").unwrap(), i), out.to_string()).unwrap();
+        }
+    }
+}
+''')
+    base = os.path.join(scratch_repo, "..", "a2mlspec")
+    for i, sp in enumerate(specs):
+        open("%s.in.%d" % (base, i), "w").write(sp)
+    env = C.env_offline({"VRT_SPEC": base + ".in", "VRT_OUT": base + ".out", "VRT_NSPEC": str(len(specs))})
+    p = subprocess.run(["cargo", "test", "--offline", "-p", "a2lmacros", "--lib", "--target-dir",
+                        os.path.join(scratch_repo, "..", "tgt-macros"), "verif_expand::vrt_expand", "--", "--exact"],
+                       cwd=scratch_repo, env=env, stdout=subprocess.PIPE, stderr=subprocess.STDOUT, text=True)
+    if p.returncode != 0:
+        raise RuntimeError("in-tree a2ml_specification generator failed:\n" + p.stdout[-3000:])
+    outs = []
+    for i in range(len(specs)):
+        o = "%s.out.%d" % (base, i)
+        rs = o + ".rs"
+        os.rename(o, rs)
+        q = subprocess.run(["rustfmt", "--edition", "2021", rs], stdout=subprocess.PIPE, stderr=subprocess.STDOUT, text=True)
+        if q.returncode != 0:
+            raise RuntimeError("rustfmt of the generated code failed:\n" + q.stdout[-2000:])
+        outs.append(open(rs).read())
+    it = iter(outs)
+    return EXPAND_RE.sub(lambda m: next(it), body)
+
+
+def inject(scratch_repo, modules, known_ids, intree_macros=False):
     src = os.path.join(scratch_repo, "a2lfile", "src")
     table = []
+    pre = link_intree_macros(scratch_repo) if intree_macros else []
     for m in modules:
         rel = m.replace("__", "/") + ".rs"
-        body = open(os.path.join(C.VERIF, "harness", m + ".rs")).read()
+        body = expand_a2ml_specs(scratch_repo, open(os.path.join(C.VERIF, "harness", m + ".rs")).read())
         with open(os.path.join(src, rel), "a") as f:
             f.write("\n#[cfg(verif)]\n#[allow(unused, clippy::all)]\npub(crate) mod verif_h {\nuse super::*;\n")
             f.write(body)
@@ -42,7 +110,7 @@ def inject(scratch_repo, modules, known_ids):
         f.write(rt)
     with open(os.path.join(src, "lib.rs"), "a") as f:
         f.write("\n#[cfg(verif)]\n#[allow(unused, clippy::all)]\npub(crate) mod verif_rt;\n")
-    return ["a2lfile/src/%s.rs += /verif/harness/%s.rs (cfg(verif))" % (m.replace("__", "/"), m) for m in modules] + [
+    return pre + ["a2lfile/src/%s.rs += /verif/harness/%s.rs (cfg(verif))" % (m.replace("__", "/"), m) for m in modules] + [
         "a2lfile/src/verif_rt.rs (new, cfg(verif))"]
 
 
